@@ -30,7 +30,7 @@ def variants(rng, base, tier, k):
                 c["cwd"] = dart_[0][0]
                 c["how"] = "scratch-from-inside-the-artifact"
         elif v == 1:
-            init = list(final)
+            init = [(e[0], e[1], "sd:" + e[2][3:]) if e[0] == "file" and e[2].startswith("sp:") else e for e in final]   # holes written out
             rng.shuffle(init)                      # other creation order (listing order on tmpfs/ext4 differs)
             dirs = [e for e in init if e[0] == "dir"]
             rest = [e for e in init if e[0] != "dir"]
@@ -41,9 +41,14 @@ def variants(rng, base, tier, k):
             # start from an earlier version, commit, edit into the final tree, recommit (twice)
             ops = []
             init = []
+            twin_old = {bytes.fromhex(k_): v_ for k_, v_ in base.get("twin_old", {}).items()}
             for e in final:
                 r = rng.random()
-                if e[0] == "file" and r < 0.3:
+                if e[0] == "file" and e[1] in twin_old:
+                    # the earlier version of this file is what its twins still hold: the sub-directory had the same manifest as they
+                    init.append(("file", e[1], twin_old[e[1]]))
+                    ops.append(("write", e[1], e[2]))
+                elif e[0] == "file" and r < 0.3:
                     if rng.random() < 0.5:
                         # same size, other bytes, and the replacement keeps an old timestamp (mv / cp -p / rsync -t / tar x)
                         init.append(("file", e[1], "g:%d:%s" % (rng.randrange(100000, 200000), e[2].split(":")[2])))
@@ -121,15 +126,54 @@ def variants(rng, base, tier, k):
             c["init"] = init
             c["ops"] = [("commit", strat, [])] + ops + [("commit", rng.choice("lc"), [])]
         out.append(c)
+    for v in ((6, 7, 8) if base.get("twin_old") else ()):
+        # only the twins' earlier version differs: commit, replace the files of one twin, commit again (default pools: the twins are
+        # committed side by side)
+        c = copy.deepcopy(base)
+        c["id"] = "%s-v%d" % (base["id"], v)
+        c["group"] = base["id"]
+        c["cache"] = "rel"
+        tw = {bytes.fromhex(k_): v_ for k_, v_ in base["twin_old"].items()}
+        c["init"] = [("file", e[1], tw[e[1]]) if e[0] == "file" and e[1] in tw else e for e in final]
+        c["ops"] = [("commit", "l", [])] + [("write", e[1], e[2]) for e in final if e[0] == "file" and e[1] in tw] + [("commit", "lc"[v % 2], [])]
+        c["how"] = "incremental-twins"
+        out.append(c)
     return out
 
 
 def make_cases(rng, tier, n):
     cases, stats = [], {}
-    for i in range(n // 6):
+    for i in range(n // 6):          # (bases with twins get three more histories)
         base = gen.basic_project(rng, "tree-%d" % i, tier, stats=stats, allow_inputs=False)
         base.pop("cwd", None)
         base["init"] = [e for e in base["init"] if not e[1].startswith(b"workdir")]
+        d0 = [a for a in s1eval.artifacts(base) if a[1] == "d"]
+        if i % 5 == 2 and d0:
+            # sub-directories with the same name and (in the earlier version) the same entries under different parents: they share
+            # one manifest object until the files of ONE of them are replaced
+            old = {}
+            base["init"].append(("dir", d0[0][0] + b"/tw"))
+            for par in range(6):
+                base["init"] += [("dir", d0[0][0] + b"/tw/p%d" % par), ("dir", d0[0][0] + b"/tw/p%d/x" % par)]
+                for j in range(40):
+                    spec_old = "g:%d:%d" % (7000 + j, 20 + j)
+                    pth = d0[0][0] + b"/tw/p%d/x/f%d" % (par, j)
+                    if par == 1:
+                        base["init"].append(("file", pth, "g:%d:%d" % (8000 + j + 10 * i, 31 + j)))
+                        old[pth.hex()] = spec_old
+                    else:
+                        base["init"].append(("file", pth, spec_old))
+            base["twin_old"] = old
+            stats["twin_subdirs"] = stats.get("twin_subdirs", 0) + 1
+        if i % 5 == 4:
+            # files of a MiB and more that end in a hole (extended with truncate, preallocated): their content is their bytes, zeros
+            # included — as a file artifact and inside a directory; one history writes the zeros out
+            tot = (1 << 20) + rng.choice([0, 1, 4096, 70000])
+            base["init"].append(("file", b"sparse_tail.bin", "sp:%d:%d:%d" % (rng.randrange(1000), rng.choice([1, 300000, 1 << 20]), tot + 4096)))
+            base["stages"].append((b"sparse.yaml", dict(cmd=b"", wd=b".", out=[(b"sparse_tail.bin", "")])))
+            if d0:
+                base["init"].append(("file", d0[0][0] + b"/sparse_in_dir.bin", "sp:%d:%d:%d" % (rng.randrange(1000), 2 << 20, (3 << 20) + 5)))
+            stats["sparse_tail"] = stats.get("sparse_tail", 0) + 1
         for c in variants(rng, base, tier, i):
             stats["how_" + c["how"]] = stats.get("how_" + c["how"], 0) + 1
             cases.append(c)
